@@ -162,6 +162,20 @@ theorem C03_verify_iff (b : Bundle) (sb : SecBlock) :
     rw [verifyBibLoop_ok]
     simp
 
+/-- **A recorded failure is never withdrawn.** Once one target of a BIB failed, `verify_bib` cannot
+    return "no failure", whatever the later targets do (they may all verify). -/
+theorem C03_failure_sticks (b : Bundle) (sb : SecBlock) :
+    ∀ (ts : List Nat) (ix : Nat), verifyBibLoop P store crcFn b sb ts ix true ≠ .ok
+  | [], ix => by simp [verifyBibLoop]
+  | t :: ts, ix => by
+    unfold verifyBibLoop
+    split
+    · simp
+    · split
+      · simp
+      · exact C03_failure_sticks b sb ts (ix + 1)
+      · exact C03_failure_sticks b sb ts (ix + 1)
+
 /-- **Frame.** The MAC input is a function of the covered view, the protected header and the target
     data: contexts that agree on these (whatever else differs in the bundles) give the same input, so
     a change outside the declared scope cannot make verification fail. -/
